@@ -6,6 +6,7 @@ Verdict observables: the independent XML expansion after each call and every
 read of the live object, both against the state/answers computed by TLC."""
 from harness.common import Run
 from harness.table_engine import run_table_property
+from harness.vault_engine import run_vault_part
 
 
 def main(tier: str) -> int:
@@ -22,4 +23,6 @@ def main(tier: str) -> int:
         "TLC, the CommunityModules Json/IOUtils overrides and lxml are trusted",
     ]
     run_table_property(run, tier, verdict_kinds=("xml", "live", "exc", "model"))
+    # implementation-shaped refinement (Vault.tla): run-length vaults of cells, rows, columns
+    run_vault_part(run, tier, verdict_kinds=("xml", "live"))
     return run.finish()
